@@ -528,6 +528,23 @@ def ask_group(mol, name, idx):
         return "raises " + type(e).__name__
 
 
+def ask_rule(mol, name, idx):
+    """the same question as the merge / expansion rule conditions ask it: the functional
+    group of the neighbour atom `idx` (in the source molecule) of a fragment's boundary"""
+    from synrbl.SynMCSImputer.rules import FunctionalGroupProperty
+    from synrbl.SynMCSImputer.structure import Compound
+
+    try:
+        c = Compound("C", src_mol=mol)
+        b = c.add_boundary(0, symbol="C", neighbor_index=idx)
+        pos, neg = FunctionalGroupProperty([name])(b), FunctionalGroupProperty(["!" + name])(b)
+        if bool(pos) == bool(neg):
+            return "inconsistent (positive {} / negated {})".format(pos, neg)
+        return bool(pos)
+    except Exception as e:
+        return "raises " + type(e).__name__
+
+
 def group_names():
     from synrbl.SynUtils.functional_group_utils import functional_group_config as cfg
 
@@ -554,6 +571,12 @@ def renumber_case(item):
         if v is not True and v is not False:
             bad.append({"sub": "exception", "smiles": smiles, "natoms": n, "atom": i,
                         "group": name, "spec": None, "base": v, "got": v})
+        else:
+            via = ask_rule(mol, name, i)
+            n_eval += 1
+            if via != v:
+                bad.append({"sub": "rule-condition", "smiles": smiles, "natoms": n, "atom": i,
+                            "group": name, "spec": None, "base": v, "got": via})
     seen = set()
     base_g = G(mol)
     base_sig = base_g.signature()
@@ -582,6 +605,15 @@ def renumber_case(item):
                     bad.append({"sub": "renumbering", "smiles": smiles, "natoms": n,
                                 "atom": i, "group": name, "spec": spec,
                                 "base": base[(name, i)], "got": got})
+                elif got is True or pos[i] == 0:
+                    # the rule-condition layer on top: every positive answer, and every answer for
+                    # the atom that the renumbering puts first
+                    via = ask_rule(pm, name, pos[i])
+                    n_eval += 1
+                    if via != got:
+                        bad.append({"sub": "rule-condition", "smiles": smiles, "natoms": n,
+                                    "atom": i, "group": name, "spec": spec,
+                                    "base": got, "got": via})
     return {"n": n_eval, "forms": len({s for s, _ in seen}), "pos": n_pos,
             "skipped": n_skipped, "bad": bad}
 
@@ -654,6 +686,12 @@ def _mk_renumber_violation(b):
         key = ["exception", b["group"]]
         what = "is_functional_group({}, {}, {}) {}".format(
             b["smiles"], b["group"], b["atom"], b["got"])
+    elif b["sub"] == "rule-condition":
+        key = ["rule-condition", b["group"]]
+        what = ("is_functional_group({}, {}, {}){} is {} but the rule condition functional_group=[{}] on a boundary "
+                "whose neighbour is that atom answers {}").format(
+            b["smiles"], b["group"], b["atom"], "" if b["spec"] is None else " after renumbering {}".format(b["spec"]),
+            b["base"], b["group"], b["got"])
     else:
         key = ["renumbering", b["group"]]
         what = "is_functional_group({}, {}, {}) is {} but {} after renumbering {}".format(
@@ -848,6 +886,15 @@ def replay(v):
             got = ask_group(pm, c["group"], pos[c["atom"]])
             failed = got != base
             sub = "renumbering"
+        if v.sub == "group.rule-condition":
+            pm, at = mol, c["atom"]
+            if c["spec"] is not None:
+                pm, pos = variant(mol, c["spec"])
+                at = pos[c["atom"]]
+            got = ask_rule(pm, c["group"], at)
+            base = ask_group(pm, c["group"], at)
+            failed = got != base
+            sub = "rule-condition"
         if failed:
             out.append(_mk_renumber_violation({
                 "sub": sub, "smiles": c["smiles"], "natoms": mol.GetNumAtoms(),
